@@ -26,7 +26,7 @@ rm -f $D/zz_demo_mut_test.go
 git apply $WT/.applied.diff
 OUT="RESULT $M build=$BUILD suite=$SUITE demo_with=$DEMO_WITH demo_without=$DEMO_WITHOUT"
 for P in "$@"; do
-  VERIF_REPO=$WT VERIF_DIR=/verif /verif/bin/verif check $P --tier ${MUT_TIER:-quick} > /tmp/mutchk.$$ 2>&1; E=$?
+  VERIF_REPO=$WT VERIF_DIR=/verif VERIF_OUT=$WT/.verif-out /verif/bin/verif check $P --tier ${MUT_TIER:-quick} > /tmp/mutchk.$$ 2>&1; E=$?
   SIG=$(grep -A1 '^VIOLATION' /tmp/mutchk.$$ | grep -v VIOLATION | head -2 | cut -c1-160 | tr '\n' ' ')
   OUT="$OUT | $P exit=$E $SIG"
   [ $E = 2 ] && OUT="$OUT $(grep 'verif:' /tmp/mutchk.$$ | head -2 | cut -c1-200 | tr '\n' ' ')"
